@@ -26,7 +26,7 @@ pub struct Ctx {
     pub _scratch: Scratch,
 }
 
-pub const OPS: [&str; 28] = [
+pub const OPS: [&str; 30] = [
     "insert_new",
     "overwrite",
     "delete",
@@ -55,6 +55,8 @@ pub const OPS: [&str; 28] = [
     "get_embedding_cache_aware",
     "knn_similar",
     "knn_evicting",
+    "flush_threshold_never_drained",
+    "stats_never_drained",
 ];
 
 fn vecf(seed: u64, dim: usize) -> Vec<f32> {
@@ -68,7 +70,8 @@ fn meta1(k: &str, v: &str) -> std::collections::HashMap<String, String> {
     m
 }
 
-/// variant 0: roomy limits; 1: recent-write tier at its hard limit; 2: cold index full (tombstones present)
+/// variant 0: roomy limits; 1: recent-write tier at its hard limit; 2: cold index full (tombstones present);
+/// 3: recent-write tier never drained and below its threshold
 pub fn make_ctx(variant: u8, rt: Arc<tokio::runtime::Runtime>) -> Option<Ctx> {
     let scratch = Scratch::new("c08");
     let dim = 4;
@@ -80,7 +83,7 @@ pub fn make_ctx(variant: u8, rt: Arc<tokio::runtime::Runtime>) -> Option<Ctx> {
         max_wal: 256,
         fsync: FsyncPolicy::Never,
         tiered: true,
-        hot_soft: if variant == 1 { 2 } else { 6 },
+        hot_soft: if variant == 1 { 2 } else if variant == 3 { 32 } else { 6 },
         hot_hard: if variant == 1 { 3 } else { 64 },
     };
     let strategy = Arc::new(LearnedCacheStrategy::new(4, LearnedCachePredictor::new(4).ok()?));
@@ -91,7 +94,8 @@ pub fn make_ctx(variant: u8, rt: Arc<tokio::runtime::Runtime>) -> Option<Ctx> {
     // population: ids 0..6; half drained to the cold tier only, half with a recent-write mirror
     for id in 0..6u64 {
         engine.insert(id, vecf(id + 1, dim), meta1("k", if id % 2 == 0 { "even" } else { "odd" })).ok()?;
-        if id == 2 {
+        // variant 3: the recent-write tier has NEVER been drained (and stays below its threshold)
+        if id == 2 && variant != 3 {
             let _ = engine.flush_hot_tier(true);
         }
     }
@@ -185,7 +189,7 @@ pub fn run_op(ctx: &Ctx, op: &str, salt: u64) {
         "flush_forced" => {
             let _ = e.flush_hot_tier(true);
         }
-        "flush_threshold" => {
+        "flush_threshold" | "flush_threshold_never_drained" => {
             let _ = e.flush_hot_tier(false);
         }
         "bulk_load" => {
@@ -194,7 +198,7 @@ pub fn run_op(ctx: &Ctx, op: &str, salt: u64) {
         "snapshot" => {
             let _ = e.cold_tier().create_snapshot();
         }
-        "stats" => {
+        "stats" | "stats_never_drained" => {
             let _ = e.stats();
             let _ = e.cache_size();
         }
@@ -214,6 +218,7 @@ fn variant_for(op: &str) -> u8 {
     match op {
         "insert_at_hard_limit" => 1,
         "insert_index_full" => 2,
+        "flush_threshold_never_drained" | "stats_never_drained" => 3,
         _ => 0,
     }
 }
@@ -386,6 +391,7 @@ fn pair_sweep(args: &Args, rt: &Arc<tokio::runtime::Runtime>, out: &mut Out) {
 
 fn soak(args: &Args, rt: &Arc<tokio::runtime::Runtime>, out: &mut Out) {
     let rounds = args.n(96, 800);
+    let mut watchdogs = 0;
     for round in 0..rounds {
         if !args.mine(round) {
             continue;
@@ -409,7 +415,7 @@ fn soak(args: &Args, rt: &Arc<tokio::runtime::Runtime>, out: &mut Out) {
                 }) as Box<dyn FnOnce() + Send + 'static>
             })
             .collect();
-        let r = sched::run_threads(&labels, bodies, Duration::from_secs(120));
+        let r = sched::run_threads(&labels, bodies, Duration::from_secs(60));
         sched::set_jitter(0, 1);
         out.eval();
         harvest_graph(out);
@@ -422,9 +428,15 @@ fn soak(args: &Args, rt: &Arc<tokio::runtime::Runtime>, out: &mut Out) {
                 json!({"check":"C08","leg":"soak","round":round,"seed":args.seed,"report":report}),
             );
             std::mem::forget(ctx);
+            // stuck threads of this round are leaked; one witness per shard is enough
+            break;
         } else if !r.completed {
             out.inconclusive(format!("soak round {} hit the watchdog without a reported wait-for cycle", round));
             std::mem::forget(ctx);
+            watchdogs += 1;
+            if watchdogs >= 2 {
+                break;
+            }
         }
     }
 }
